@@ -22,6 +22,12 @@
 (*             NOT a plain parameter while the assignment is in force; a   *)
 (*             scanned value replaces the assignment by a plain value)     *)
 (*   derived : 2*kin        (a derived parameter)                          *)
+(* Rows are identified by position: the table is a sequence of (label,     *)
+(* values) whose labels need not be distinct (two batches concatenated     *)
+(* without re-indexing, repeated condition names); row i of the output is  *)
+(* the independent run of row i of the input, under row i's label.  The    *)
+(* wrong instance KeyedByLabel (results looked up by label: every row with *)
+(* a repeated label reports the last such row) is refuted by TLC.          *)
 (* The scan may be given base initial values y0: row values take           *)
 (* precedence over y0, y0 over the model's own initial values ("a fresh    *)
 (* copy of the model with exactly that row's parameter and initial         *)
@@ -56,6 +62,9 @@ CONSTANTS
                     \* "q" (the assignment-defined parameter itself; only with variant "ia")
     Kinds,          \* scan entry points (only carried into the emitted configuration)
     FailModes,      \* ways a row may fail (carried into the configuration)
+    LabelSchemes,   \* how the rows of the table are LABELLED: "range", "shuffled", "strings" (distinct labels) or
+                    \* "repeated" (rows 1, 3, 5 share one label, rows 2, 4 another -- with differing values)
+    KeyedByLabel,   \* TRUE: implementation-shaped wrong instance that looks results up by label (must be refuted)
     NameSchemes,    \* how the model's parameters / variable are NAMED in the rendering (carried into the
                     \* configuration only: the specification is silent about names, every scheme must behave alike)
     Y0s,            \* admissible y0= arguments: 0 = none, v > 0 = {x: v} (base initial values given to the scan)
@@ -114,7 +123,7 @@ Expected(i) ==
     ELSE LET c == WithRow(Base, i) IN [t |-> "val", traj |-> Traj(c), fl |-> Flux(c)]
 
 NoTask == [st |-> "todo", w |-> 0, ref |-> 0, pars |-> PlainPars(Original), traj |-> Traj(Original), rem |-> 0]
-Unset == [kind |-> "", n |-> 0, w |-> 0, mode |-> "", variant |-> "", cols |-> {}, fail |-> 0 - 1, failmode |-> "", y0 |-> 0 - 1, names |-> ""]
+Unset == [kind |-> "", n |-> 0, w |-> 0, mode |-> "", variant |-> "", cols |-> {}, fail |-> 0 - 1, failmode |-> "", y0 |-> 0 - 1, names |-> "", labels |-> ""]
 Rows == 1..cfg.n
 
 Init ==
@@ -142,7 +151,8 @@ Setup ==
                 ("q" \in v => cfg.variant = "ia") /\ cfg' = [cfg EXCEPT !.cols = v] /\ UNCHANGED <<phase, dur>>
        \/ cfg.cols # {} /\ cfg.y0 < 0 /\ \E v \in Y0s : cfg' = [cfg EXCEPT !.y0 = v] /\ UNCHANGED <<phase, dur>>
        \/ cfg.y0 >= 0 /\ cfg.names = "" /\ \E v \in NameSchemes : cfg' = [cfg EXCEPT !.names = v] /\ UNCHANGED <<phase, dur>>
-       \/ cfg.names # "" /\ cfg.fail = 0 - 1 /\ \E v \in {0, 0 - 2} : cfg' = [cfg EXCEPT !.fail = v] /\ UNCHANGED <<phase, dur>>
+       \/ cfg.names # "" /\ cfg.labels = "" /\ \E v \in LabelSchemes : cfg' = [cfg EXCEPT !.labels = v] /\ UNCHANGED <<phase, dur>>
+       \/ cfg.labels # "" /\ cfg.fail = 0 - 1 /\ \E v \in {0, 0 - 2} : cfg' = [cfg EXCEPT !.fail = v] /\ UNCHANGED <<phase, dur>>
        \/ cfg.fail = 0 - 2 /\ \E v \in 1..cfg.n : cfg' = [cfg EXCEPT !.fail = v] /\ UNCHANGED <<phase, dur>>
        \/ cfg.fail > 0 /\ cfg.failmode = "" /\ \E v \in FailModes :
                 (v = "nosteady" => IsSteady(cfg.kind)) /\ cfg' = [cfg EXCEPT !.failmode = v] /\ UNCHANGED <<phase, dur>>
@@ -218,13 +228,20 @@ Collect ==
     /\ UNCHANGED <<cfg, dur, obj, task, eval, clock, forder, ftick, eorder>>
 
 \* lazy read of result i: through the reference, re-applying the captured plain parameters
+\* The table is a sequence of (label, values); labels are only carried and need not be distinct: rows are
+\* identified by POSITION.  Label(i) is abstract: equal numbers = equal labels.
+Label(i) == IF cfg.labels = "repeated" THEN ((i - 1) % 2) + 1 ELSE i
+\* the row whose result a lookup BY LABEL finds for row i: the last row carrying that label
+LastWith(i) == CHOOSE j \in Rows : Label(j) = Label(i) /\ \A m \in Rows : Label(m) = Label(i) => m <= j
+Src(i) == IF KeyedByLabel THEN LastWith(i) ELSE i
+
 Evaluate(i) ==
     /\ phase = "collected" /\ eval[i].t = "none"
-    /\ LET ref == task[i].ref
-           now == WithPlain(obj[ref], task[i].pars)
+    /\ LET ref == task[Src(i)].ref
+           now == WithPlain(obj[ref], task[Src(i)].pars)
        IN /\ obj' = [obj EXCEPT ![ref] = now]
-          /\ eval' = [eval EXCEPT ![i] = IF task[i].st = "failed" THEN [t |-> "nan"]
-                                          ELSE [t |-> "val", traj |-> task[i].traj, fl |-> Flux(now)]]
+          /\ eval' = [eval EXCEPT ![i] = IF task[Src(i)].st = "failed" THEN [t |-> "nan"]
+                                          ELSE [t |-> "val", traj |-> task[Src(i)].traj, fl |-> Flux(now)]]
     /\ eorder' = Append(eorder, i)
     /\ UNCHANGED <<cfg, phase, dur, task, out, clock, forder, ftick>>
 
@@ -249,6 +266,7 @@ CallerUntouched == (Started /\ ~(cfg.mode = "seq" /\ SharedInSeq)) => obj[0] = B
 
 Emit == (EmitOn /\ phase = "done") =>
     PrintT("@J@" \o ToJson([cfg |-> cfg, dur |-> dur, forder |-> forder, ftick |-> ftick, eorder |-> eorder,
+                            labels |-> [i \in Rows |-> Label(i)],
                             worker |-> [i \in Rows |-> task[i].w],
                             vals |-> [i \in Rows |-> [k |-> RowVal(i, "k"), i |-> RowVal(i, "i"), x |-> RowVal(i, "x"), q |-> RowVal(i, "q")]],
                             expect |-> [i \in Rows |-> Expected(i)]]) \o "@E@")
